@@ -351,8 +351,9 @@ func Rotate(seq Sequence, n int) Sequence {
 	}
 
 	m := Len(seq) - n
-	p := seq.Bytes()
-	p = append(p[m:], p[:m]...)
+	q := seq.Bytes()
+	p := make([]byte, 0, len(q))
+	p = append(append(p, q[m:]...), q[:m]...)
 
 	seq = WithFeatures(seq, ff)
 	seq = WithBytes(seq, p)
